@@ -405,6 +405,19 @@ fn run_c11(ctx: &mut Ctx) {
             }
         }
     }
+    // longer slices into the dynamic and auto types (and, over capacity, into the fixed ones)
+    for ty in 0..NTYPES {
+        if !ctx.mine() {
+            continue;
+        }
+        for uty in ALL_UTY {
+            for count in [6usize, 8, 9, 16, 17, 33, 64, 65, 100] {
+                let vals: Vec<u128> = (0..count).map(|i| if i % 3 == 0 { uty.max() } else { rng.u128() & uty.max() }).collect();
+                let vs = vals.iter().map(|v| v.to_string()).collect::<Vec<_>>().join(",");
+                judge(ctx, &Case::new("fromslice").with("ty", ty).with("uty", uty.name()).with("vals", vs), "W-long-slices");
+            }
+        }
+    }
     // every vector of len <= k (all values) and lattice vectors into every uN, by reference and by value
     let k = tier.pick(4, 11, 13);
     for ty in 0..NTYPES {
@@ -485,6 +498,17 @@ fn run_c12(ctx: &mut Ctx) {
             for n in 0..=tier.pick(2, 4, 6).min(capa.unwrap_or(99)) {
                 for va in gen::all_values(n) {
                     judge(ctx, &Case::new("conv").with("a", Spec::set(ta, va).enc()).with("to", tb), "W1-small-exhaustive");
+                }
+            }
+        }
+        // long sources (dynamic / auto): into each other and (must fail) into the fixed types
+        if TYPE_FIXED_CAP[ta].is_none() && ctx.mine() {
+            for n in gen::long_lens(tier) {
+                for va in gen::lattice_small(n, 64, &mut rng) {
+                    let a = Spec::new(ta, va, via_for(ta, &mut rng));
+                    for tb in [IDX_BVD, IDX_BV, 11usize, 9, 0] {
+                        judge(ctx, &Case::new("conv").with("a", a.enc()).with("to", tb), "W-long-sources");
+                    }
                 }
             }
         }
